@@ -302,6 +302,103 @@ Proof.
     rewrite Hh, Hh1. apply Permutation_refl.
 Qed.
 
+Lemma finv_init_ (d : dend T) n0 : FInv n0 (d_reset d n0) (seq 0 n0).
+Proof.
+  unfold FInv. cbn [d_reset d_obs d_steps edges map all_nontrivial add_edges length].
+  split; [reflexivity|]. split; [intros x Hx; apply in_seq in Hx; lia|]. split; [intros st []|].
+  split; [exact I|]. split; [intros x y _ _ Hxy Heq; exact (Hxy Heq)|rewrite seq_length; reflexivity].
+Qed.
+
+(* what a run establishes before its final relabel pass *)
+Definition run_trace (n0 : nat) (dfinal : dend T) (raw : list (step T)) : Prop :=
+  exists (u u' : ufind) (d1 d2 : dend T),
+    d_steps d1 = raw /\ length raw = n0 - 1 /\ strace (seq 0 n0) Leaf raw
+    /\ (exists L, FInv n0 d1 L)
+    /\ relabel (k_ltb K) (k_eqb K) u d1 (requires_sorting meth) = Ok (u', d2) /\ dfinal = sqrt_all K d2.
+
+Theorem nnchain_primitive_traces s1 d1 s2 d2 m n sp dp mp sc dc mc M0 :
+  prologue p (square_all K m) n = Ok M0 -> 1 <= m_obs M0 ->
+  (forall x y v, x <> y -> x < m_obs M0 -> y < m_obs M0 -> wcell M0 x y = Some v -> crit (Leaf x) (Leaf y) v) ->
+  primitive_with K p meth s1 d1 m n = Ok (sp, dp, mp) ->
+  nnchain_with K p meth s2 d2 m n = Ok (sc, dc, mc) ->
+  distinct_from (prim_iter K p meth) 0 (m_obs M0 - 1) (st_reset K s1 (m_obs M0)) (d_reset d1 (m_obs M0)) M0 ->
+  distinct_from (chain_iter K p meth) 0 (m_obs M0 - 1)
+    (st_with_chain (st_reset K s2 (m_obs M0)) []) (d_reset d2 (m_obs M0)) M0 ->
+  exists raw_p raw_c,
+    run_trace (m_obs M0) dp raw_p /\ run_trace (m_obs M0) dc raw_c
+    /\ Permutation (nodes_of Leaf raw_p) (nodes_of Leaf raw_c)
+    /\ (forall N v w, In (N, v) (node_heights Leaf raw_p) -> In (N, w) (node_heights Leaf raw_c) ->
+          ltb v w = false /\ ltb w v = false).
+Proof.
+  intros HM0 Hn1 Hleaf Hp Hc HDp HDc.
+  unfold primitive_with in Hp. unfold nnchain_with in Hc. rewrite HM0 in Hp, Hc. cbn [bind] in Hp, Hc.
+  destruct (Nat.eqb_spec (m_obs M0) 0) as [Hz|Hz]; [lia|].
+  destruct (prologue_wf _ _ _ HM0) as [Hwf _].
+  set (n0 := m_obs M0) in *.
+  (* initial invariants *)
+  assert (HI0 : NInv K n0 (st_with_chain (st_reset K s2 n0) []) (d_reset d2 n0) M0 (seq 0 n0)).
+  { unfold NInv. cbn [st_with_chain st_reset st_active st_sizes st_chain d_reset d_obs d_steps length].
+    split; [apply a_reset_inv|]. split; [exact Hwf|]. split; [reflexivity|].
+    split; [rewrite a_reset_canonical; cbn; rewrite map_length, seq_length; reflexivity|].
+    split; [apply seq_NoDup|]. unfold clear_resize. split; [rewrite vresize_length; reflexivity|].
+    split.
+    { intros x Hx. apply in_seq in Hx. exists 1. split; [|lia]. unfold vresize. rewrite firstn_nil. cbn [length app].
+      rewrite Nat.sub_0_r. apply nth_error_repeat. lia. }
+    split; [reflexivity|]. split; [rewrite seq_length; reflexivity|].
+    exists [], []. split; [reflexivity|]. split; [right; split; reflexivity|constructor]. }
+  assert (HWc : forall s0, (forall x, x < n0 -> nth_error (st_sizes s0) x = Some 1) -> LWInv crit s0 M0 (seq 0 n0) Leaf).
+  { intros s0 Es. split.
+    - intros x y Hx Hy Hxy. apply in_seq in Hx. apply in_seq in Hy.
+      destruct (@wcell_some T p M0 x y Hwf Hxy ltac:(lia) ltac:(lia)) as (v & Hv).
+      exists v. split; [exact Hv|]. apply Hleaf; [exact Hxy|lia|lia|exact Hv].
+    - intros x Hx. apply in_seq in Hx. cbn [tsize]. apply Es. lia. }
+  assert (HW0c : LWInv crit (st_with_chain (st_reset K s2 n0) []) M0 (seq 0 n0) Leaf).
+  { apply HWc. intros x Hx. cbn [st_with_chain st_reset st_sizes]. unfold clear_resize, vresize.
+    rewrite firstn_nil. cbn [length app]. rewrite Nat.sub_0_r. apply nth_error_repeat. exact Hx. }
+  assert (HW0p : LWInv crit (st_reset K s1 n0) M0 (seq 0 n0) Leaf).
+  { apply HWc. intros x Hx. cbn [st_reset st_sizes]. unfold clear_resize, vresize.
+    rewrite firstn_nil. cbn [length app]. rewrite Nat.sub_0_r. apply nth_error_repeat. exact Hx. }
+  assert (HT0 : TInv (seq 0 n0) Leaf).
+  { split; [apply seq_NoDup|]. split; [intros x _; reflexivity|]. split.
+    - rewrite flat_leaves_leaf. apply seq_NoDup.
+    - intros X Y HX HY Hxy. apply in_map_iff in HX. apply in_map_iff in HY.
+      destruct HX as (x & <- & Hx), HY as (y & <- & Hy). apply in_seq in Hx. apply in_seq in Hy.
+      assert (x <> y) by congruence.
+      destruct (@wcell_some T p M0 x y Hwf ltac:(assumption) ltac:(lia) ltac:(lia)) as (v & Hv).
+      exists v. apply Hleaf; [assumption|lia|lia|exact Hv]. }
+  (* primitive *)
+  destruct (mfold (prim_iter K p meth) (seq 0 (n0 - 1)) (st_reset K s1 n0, d_reset d1 n0, M0)) as [[[sp1 dp1] Mp1]| |] eqn:Fp;
+    cbn [bind] in Hp; try discriminate.
+  destruct (@prim_fold_strace (n0 - 1) 0 _ _ _ _ _ _ _ _ (@prim_init T K s1 M0 Hwf) HW0p HDp Fp) as (raw_p & Hsp & Hlp & Hstp).
+  destruct (@prim_fold_forest T K p ltb_trans ltb_irrefl meth n0 _ _ _ _ _ _ _ _ (@prim_init T K s1 M0 Hwf) (finv_init_ d1 n0) (seq_NoDup _ _) Fp)
+    as (Lp & HFp & _).
+  (* nnchain *)
+  destruct (@chain_fold_strace n0 (n0 - 1) 0 _ _ _ _ _ HI0 HW0c ltac:(rewrite seq_length; lia) HDc)
+    as (sc1 & dc1 & Mc1 & raw_c & Fc & Hsc & Hlc & Hstc).
+  destruct (@chain_fold_progress T K p meth ltb_irrefl ltb_trans ltb_negtrans reducible n0 (n0 - 1) 0 _ _ _ _ HI0 (finv_init_ d2 n0)
+              ltac:(rewrite seq_length; lia)) as (sc1' & dc1' & Mc1' & Lc & Fc' & _ & HFc & _).
+  rewrite Fc in Fc'. inversion Fc'; subst sc1' dc1' Mc1'. clear Fc'.
+  rewrite Fc in Hc. cbn [bind] in Hc.
+  cbn [d_reset d_steps app] in Hsp, Hsc.
+  exists raw_p, raw_c.
+  bind_inv Hp. destruct a as [up dp2]. bind_inv Hc. destruct a as [uc dc2]. inversion Hp; inversion Hc; subst dp dc.
+  split; [exists (st_set sp1), up, dp1, dp2; split; [exact Hsp|]; split; [exact Hlp|]; split; [exact Hstp|];
+          split; [exists Lp; exact HFp|]; split; [exact E|reflexivity]|].
+  split; [exists (st_set sc1), uc, dc1, dc2; split; [exact Hsc|]; split; [exact Hlc|]; split; [exact Hstc|];
+          split; [exists Lc; exact HFc|]; split; [exact E0|reflexivity]|].
+  assert (Hlen : forall raw : list (step T), length raw = n0 - 1 -> length raw + 1 = length (seq 0 n0)) by (intros raw Hr; rewrite seq_length; lia).
+  pose proof (strace_rseq Hstp HT0 (Hlen _ Hlp)) as Rp.
+  pose proof (strace_rseq Hstc HT0 (Hlen _ Hlc)) as Rc.
+  assert (Hperm : Permutation (nodes_of Leaf raw_p) (nodes_of Leaf raw_c)).
+  { exact (@rnn_confluence T ltb ltb_irrefl ltb_trans ltb_negtrans crit crit_sym crit_node_ crit_reducible_
+             (map Leaf (seq 0 n0)) (nodes_of Leaf raw_c) Rc (proj2 (proj2 HT0)) (nodes_of Leaf raw_p) Rp). }
+  split; [exact Hperm|].
+  intros N v w Hv Hw.
+  pose proof (strace_heights Hstp) as Fp'. pose proof (strace_heights Hstc) as Fc'. rewrite Forall_forall in Fp', Fc'.
+  destruct (Fp' (N, v) Hv) as (A & B & EN & Cv). destruct (Fc' (N, w) Hw) as (A' & B' & EN' & Cw).
+  cbn [fst snd] in *. rewrite EN in EN'. inversion EN'; subst A' B'. exact (crit_fun Cv Cw).
+Qed.
+
 Theorem nnchain_primitive_same_hierarchy s1 d1 s2 d2 m n sp dp mp sc dc mc M0 :
   prologue p (square_all K m) n = Ok M0 ->
   (forall x y v, x <> y -> x < m_obs M0 -> y < m_obs M0 -> wcell M0 x y = Some v -> crit (Leaf x) (Leaf y) v) ->
@@ -319,67 +416,17 @@ Theorem nnchain_primitive_same_hierarchy s1 d1 s2 d2 m n sp dp mp sc dc mc M0 :
           ltb v w = false /\ ltb w v = false).
 Proof.
   intros HM0 Hleaf Hp Hc HDp HDc.
-  unfold primitive_with in Hp. unfold nnchain_with in Hc. rewrite HM0 in Hp, Hc. cbn [bind] in Hp, Hc.
   destruct (Nat.eqb_spec (m_obs M0) 0) as [Hz|Hz].
-  - inversion Hp; inversion Hc; subst. exists [], []. rewrite Hz. cbn.
+  - unfold primitive_with in Hp. unfold nnchain_with in Hc. rewrite HM0 in Hp, Hc. cbn [bind] in Hp, Hc.
+    destruct (Nat.eqb_spec (m_obs M0) 0) as [_|Hne]; [|contradiction].
+    inversion Hp; inversion Hc; subst. exists [], []. rewrite Hz. cbn.
     split; [reflexivity|]. split; [reflexivity|]. split; [constructor|]. split; [constructor|]. split; [constructor|].
     intros N v w [].
-  - destruct (prologue_wf _ _ _ HM0) as [Hwf _].
-    set (n0 := m_obs M0) in *.
-    (* initial invariants *)
-    assert (HI0 : NInv K n0 (st_with_chain (st_reset K s2 n0) []) (d_reset d2 n0) M0 (seq 0 n0)).
-    { unfold NInv. cbn [st_with_chain st_reset st_active st_sizes st_chain d_reset d_obs d_steps length].
-      split; [apply a_reset_inv|]. split; [exact Hwf|]. split; [reflexivity|].
-      split; [rewrite a_reset_canonical; cbn; rewrite map_length, seq_length; reflexivity|].
-      split; [apply seq_NoDup|]. unfold clear_resize. split; [rewrite vresize_length; reflexivity|].
-      split.
-      { intros x Hx. apply in_seq in Hx. exists 1. split; [|lia]. unfold vresize. rewrite firstn_nil. cbn [length app].
-        rewrite Nat.sub_0_r. apply nth_error_repeat. lia. }
-      split; [reflexivity|]. split; [rewrite seq_length; reflexivity|].
-      exists [], []. split; [reflexivity|]. split; [right; split; reflexivity|constructor]. }
-    assert (HWc : forall s0, (forall x, x < n0 -> nth_error (st_sizes s0) x = Some 1) -> LWInv crit s0 M0 (seq 0 n0) Leaf).
-    { intros s0 Es. split.
-      - intros x y Hx Hy Hxy. apply in_seq in Hx. apply in_seq in Hy.
-        destruct (@wcell_some T p M0 x y Hwf Hxy ltac:(lia) ltac:(lia)) as (v & Hv).
-        exists v. split; [exact Hv|]. apply Hleaf; [exact Hxy|lia|lia|exact Hv].
-      - intros x Hx. apply in_seq in Hx. cbn [tsize]. apply Es. lia. }
-    assert (HW0c : LWInv crit (st_with_chain (st_reset K s2 n0) []) M0 (seq 0 n0) Leaf).
-    { apply HWc. intros x Hx. cbn [st_with_chain st_reset st_sizes]. unfold clear_resize, vresize.
-      rewrite firstn_nil. cbn [length app]. rewrite Nat.sub_0_r. apply nth_error_repeat. exact Hx. }
-    assert (HW0p : LWInv crit (st_reset K s1 n0) M0 (seq 0 n0) Leaf).
-    { apply HWc. intros x Hx. cbn [st_reset st_sizes]. unfold clear_resize, vresize.
-      rewrite firstn_nil. cbn [length app]. rewrite Nat.sub_0_r. apply nth_error_repeat. exact Hx. }
-    assert (HT0 : TInv (seq 0 n0) Leaf).
-    { split; [apply seq_NoDup|]. split; [intros x _; reflexivity|]. split.
-      - rewrite flat_leaves_leaf. apply seq_NoDup.
-      - intros X Y HX HY Hxy. apply in_map_iff in HX. apply in_map_iff in HY.
-        destruct HX as (x & <- & Hx), HY as (y & <- & Hy). apply in_seq in Hx. apply in_seq in Hy.
-        assert (x <> y) by congruence.
-        destruct (@wcell_some T p M0 x y Hwf ltac:(assumption) ltac:(lia) ltac:(lia)) as (v & Hv).
-        exists v. apply Hleaf; [assumption|lia|lia|exact Hv]. }
-    (* primitive *)
-    destruct (mfold (prim_iter K p meth) (seq 0 (n0 - 1)) (st_reset K s1 n0, d_reset d1 n0, M0)) as [[[sp1 dp1] Mp1]| |] eqn:Fp;
-      cbn [bind] in Hp; try discriminate.
-    destruct (@prim_fold_strace (n0 - 1) 0 _ _ _ _ _ _ _ _ (@prim_init T K s1 M0 Hwf) HW0p HDp Fp) as (raw_p & Hsp & Hlp & Hstp).
-    (* nnchain *)
-    destruct (@chain_fold_strace n0 (n0 - 1) 0 _ _ _ _ _ HI0 HW0c ltac:(rewrite seq_length; lia) HDc)
-      as (sc1 & dc1 & Mc1 & raw_c & Fc & Hsc & Hlc & Hstc).
-    rewrite Fc in Hc. cbn [bind] in Hc.
-    cbn [d_reset d_steps app] in Hsp, Hsc.
+  - destruct (@nnchain_primitive_traces s1 d1 s2 d2 m n sp dp mp sc dc mc M0 HM0 ltac:(lia) Hleaf Hp Hc HDp HDc)
+      as (raw_p & raw_c & (up & up' & dp1 & dp2 & Hsp & Hlp & _ & _ & Ep & ->) & (uc & uc' & dc1 & dc2 & Hsc & Hlc & _ & _ & Ec & ->) & Hperm & Hh).
     exists raw_p, raw_c. split; [exact Hlp|]. split; [exact Hlc|].
-    bind_inv Hp. destruct a as [up dp2]. bind_inv Hc. destruct a as [uc dc2]. inversion Hp; inversion Hc; subst dp dc.
-    split; [exact (@final_heights _ _ _ _ _ Hsp E)|]. split; [exact (@final_heights _ _ _ _ _ Hsc E0)|].
-    assert (Hlen : forall raw : list (step T), length raw = n0 - 1 -> length raw + 1 = length (seq 0 n0)) by (intros raw Hr; rewrite seq_length; lia).
-    pose proof (strace_rseq Hstp HT0 (Hlen _ Hlp)) as Rp.
-    pose proof (strace_rseq Hstc HT0 (Hlen _ Hlc)) as Rc.
-    assert (Hperm : Permutation (nodes_of Leaf raw_p) (nodes_of Leaf raw_c)).
-    { exact (@rnn_confluence T ltb ltb_irrefl ltb_trans ltb_negtrans crit crit_sym crit_node_ crit_reducible_
-               (map Leaf (seq 0 n0)) (nodes_of Leaf raw_c) Rc (proj2 (proj2 HT0)) (nodes_of Leaf raw_p) Rp). }
-    split; [exact Hperm|].
-    intros N v w Hv Hw.
-    pose proof (strace_heights Hstp) as Fp'. pose proof (strace_heights Hstc) as Fc'. rewrite Forall_forall in Fp', Fc'.
-    destruct (Fp' (N, v) Hv) as (A & B & EN & Cv). destruct (Fc' (N, w) Hw) as (A' & B' & EN' & Cw).
-    cbn [fst snd] in *. rewrite EN in EN'. inversion EN'; subst A' B'. exact (crit_fun Cv Cw).
+    split; [exact (@final_heights _ _ _ _ _ Hsp Ep)|]. split; [exact (@final_heights _ _ _ _ _ Hsc Ec)|].
+    split; [exact Hperm|exact Hh].
 Qed.
 
 End AgreeChain.
